@@ -129,6 +129,8 @@ fixed("C10", "pq-v2-is-compressed-ignored", "274a5a0ab", "data page v2 is_compre
 fixed("C11", "pq-pruning-deprecated-stats-unsigned", "1d88cdccf", "row-group pruning trusted deprecated signed-order min/max on unsigned columns and pruned groups containing the searched value", [])
 fixed("C11", "glob-absolute-path-root", "232040201", "globs over absolute local paths were resolved relative to the working directory", [])
 fixed("C14", "insert-column-list-ignored", "09b3e0874", "INSERT INTO t (col, ..) ignored the column list and inserted positionally, silently storing values in the wrong columns", ["C01"])
+fixed("C14", "insert-select-from-target-reads-own-writes", "f7aae1915", "INSERT INTO t SELECT .. FROM t scanned segments flushed by its own insert partitions: under some schedules (deterministic lifo with >= 2 partitions, some random ones) it inserted k x n rows, and with more rows than one segment (32768) it never terminated", ["C04", "C03"])
+fixed("C14", "values-first-row-decimal-type-rounds-later-rows", "e65ab5b2e", "VALUES typed a decimal column by its first row only: VALUES (0.5), (-2.25) returned -2.3 (silent rounding), also through INSERT .. VALUES", ["C18", "C05", "C01"])
 fixed("C17", "csv-last-record-without-newline-dropped", "901a81dae", "read_csv dropped the last record of a file not ending in a line break", ["C11"])
 fixed("C17", "csv-inference-ignores-unterminated-last-record", "8f587fc55", "dialect/type inference ignored the final record without line break even when the whole file was in the sample", [])
 fixed("C17", "csv-partial-record-leading-empty-fields-lost", "5395bbc8c", "leading empty fields of a record split across reads were lost (clear_completed discarded field ends of a partial record with no bytes yet), so results depended on read chunking/batch size", ["C03", "C16"])
